@@ -17,7 +17,7 @@ Targets == {"fn", "mod", "trait", "impl"}
 Toks == { Bare("no_deps"), Eq("no_deps", "false"), Bare("export"), Eq("export", "true"), Bare("unimock"), Eq("unimock", "false"),
           Eq("unimock", "maybe"), Bare("mockall"), Eq("mock_api", "Mk"), Bare("mock_api"), Bare("?Send"), Bare("?Sized"),
           Eq("debug", "false"), Bare("bogus"), Eq("bogus", "true"), Bare("delegate_by"), Eq("delegate_by", "Self"),
-          Eq("delegate_by", "ref"), Eq("delegate_by", "Borrow"), Eq("delegate_by", "Custom") }
+          Eq("delegate_by", "ref"), Eq("delegate_by", "Borrow"), Eq("delegate_by", "Custom"), Eq("delegate_by", "type") }
 TokLists == UNION { [1..n -> Toks] : n \in 0..MaxToks }
 Leads(t) == CASE t \in {"fn", "mod"} -> {"T", "pub T", "pub(crate) T", "", "pub"}
               [] t = "trait" -> {"", "TImpl", "pub TImpl"}
@@ -97,7 +97,7 @@ Fault(c) ==
     [] c.kind = "attr" /\ c.attr.lead \in {"T", "pub T", "TImpl"} /\ c.attr.trail = "" /\ Len(c.attr.opts) = 1
        /\ c.target # "impl" /\ c.attr.opts[1].k = "bogus" /\ ~(c.target = "trait" /\ c.attr.lead = "") -> "unknown-option"
     [] c.kind = "attr" /\ c.attr.lead \in {"T", "pub T"} /\ c.attr.trail = "" /\ Len(c.attr.opts) = 1
-       /\ c.attr.opts[1].k = "delegate_by" -> "unsupported-option"
+       /\ c.attr.opts[1].k = "delegate_by" /\ ParseOpt(c.attr.opts[1]).err = "" -> "unsupported-option"
     [] c.kind = "attr" /\ c.target = "trait" /\ c.attr.lead = "" /\ c.attr.trail = "" /\ Len(c.attr.opts) = 1
        /\ c.attr.opts[1].k \in {"no_deps", "export"} /\ ParseOpt(c.attr.opts[1]).err = "" -> "unsupported-option"
     [] c.kind = "attr" /\ c.target = "trait" /\ c.attr.lead = "" /\ c.attr.trail = ""
